@@ -165,7 +165,7 @@ static void run_invokes()
 #else
         g_sb[2].create_sandbox();
 #endif
-        g_state_cur[2] = 0; g_sb[2].set_transition_state(&g_state[2][0]);
+        // (the helper's transition state was installed ONCE at start-up: it belongs to the object, a destroy/create cycle keeps it)
       }
       ~Helper() { if (on) g_sb[2].destroy_sandbox(); }
     } helper(sb == 2);
@@ -231,6 +231,7 @@ int main()
   g_sb[0].create_sandbox(); g_sb[1].create_sandbox();
 #endif
   g_sb[0].set_transition_state(&g_state[0][0]); g_sb[1].set_transition_state(&g_state[1][0]);
+  g_sb[2].set_transition_state(&g_state[2][0]);     // before its first creation; every later incarnation must still carry it
   main_loop([&](const std::vector<std::string>& t) -> std::string {
     if (t[0] == "dywho" && t.size() == 1) {
       // two live sandboxes bound to two different libraries that export the same names: each function runs in ITS library,
